@@ -238,6 +238,7 @@ func aberrantLoadMessageDescReentrant(t reflect.Type, name protoreflect.FullName
 	}
 
 	// Derive the message fields by inspecting the struct fields.
+	oneofIndex := map[int]int{} // index of a oneof member field -> index of its oneof
 	for i := 0; i < t.Elem().NumField(); i++ {
 		f := t.Elem().Field(i)
 		if tag := f.Tag.Get("protobuf"); tag != "" {
@@ -261,12 +262,24 @@ func aberrantLoadMessageDescReentrant(t reflect.Type, name protoreflect.FullName
 					if tag := f.Tag.Get("protobuf"); tag != "" {
 						aberrantAppendField(md, f.Type, tag, "", "")
 						fd := &md.L2.Fields.List[len(md.L2.Fields.List)-1]
-						fd.L1.ContainingOneof = od
 						fd.L1.EditionFeatures = od.L1.EditionFeatures
-						od.L1.Fields.List = append(od.L1.Fields.List, fd)
+						oneofIndex[len(md.L2.Fields.List)-1] = n
 					}
 				}
 			}
+		}
+	}
+
+	// Link oneofs and their members only now that both lists are complete:
+	// appending to the lists above moves their elements, so pointers taken
+	// earlier would refer to stale copies (a oneof's Fields would then not be
+	// the message's own field descriptors, and reflection rejects them).
+	for i := range md.L2.Fields.List {
+		if n, ok := oneofIndex[i]; ok {
+			fd := &md.L2.Fields.List[i]
+			od := &md.L2.Oneofs.List[n]
+			fd.L1.ContainingOneof = od
+			od.L1.Fields.List = append(od.L1.Fields.List, fd)
 		}
 	}
 
